@@ -74,3 +74,25 @@ pub fn stamp_mtime(path: &Path) {
         h.stamp_mtime(path);
     }
 }
+
+/// Drop-in replacements for `std::sync` primitives whose blocking operations are schedule points: importing
+/// `Mutex` from here instead of `std::sync` (under `cfg(xet_verif)` only) makes *every* acquisition of that lock a
+/// point, including acquisitions that later changes add, without a hook line at each site.
+pub mod sync {
+    pub use std::sync::MutexGuard;
+    use std::sync::LockResult;
+
+    #[derive(Debug, Default)]
+    pub struct Mutex<T>(std::sync::Mutex<T>);
+
+    impl<T> Mutex<T> {
+        pub fn new(t: T) -> Self {
+            Mutex(std::sync::Mutex::new(t))
+        }
+
+        pub fn lock(&self) -> LockResult<MutexGuard<'_, T>> {
+            super::point("sync:mutex_lock");
+            self.0.lock()
+        }
+    }
+}
